@@ -8,8 +8,9 @@
      value is one of the allowed codes or matches the declared pattern (also
      inside the tax summaries a document stores), each tag is offered by the
      regime or an active addon for that document type, the category named as
-     included in the prices belongs to the document's regime, and currencies and
-     countries are known codes."
+     included in the prices belongs to the document's regime, currencies and
+     countries are known codes, and payment means keys (by their base), payment
+     terms keys and note keys are keys the schemas publish."
 
   `Defs` is loaded from Generated/Defs.lean, i.e. from the published data files.
 -/
@@ -57,6 +58,19 @@ def totalResolves (d : Defs) (pm : PatternMatch) (cats : List CategoryTotal) : P
 
 def currencyResolves (d : Defs) (code : String) : Prop := code ∈ d.currencies
 def countryResolves (d : Defs) (code : String) : Prop := code ∈ d.countries
+
+/-- a payment means key (`payment.instructions.key`, `payment.advances[*].key`): its BASE, the
+    part before the first `+`, is one of the published means keys (the schema lists them
+    as `const`s and adds "Regime Specific Key": sub-keys after `+` are open) -/
+def meansKeyResolves (ks : KeySets) (k : String) : Prop :=
+  ∃ base ∈ ks.get "pay/means", (splitPlus k.toList []).head? = some base.toList
+
+/-- a note key / payment terms key is one of the published keys -/
+def noteKeyResolves (ks : KeySets) (k : String) : Prop := k ∈ ks.get "org/note"
+def termsKeyResolves (ks : KeySets) (k : String) : Prop := k ∈ ks.get "pay/terms"
+
+def meansKeyResolvesB (ks : KeySets) (k : String) : Bool :=
+  (ks.get "pay/means").any fun base => (splitPlus k.toList []).head? == some base.toList
 
 /-! ## executable forms (used by the driver on validated output documents) -/
 
